@@ -1,4 +1,5 @@
 # harness executables: name, sources (relative to /verif), optional wraps/defs/skip_lib
 EXES = [
     {"name": "litmus", "sources": ["harness/litmus.cpp"]},
+    {"name": "stop", "sources": ["harness/stop.cpp"]},
 ]
